@@ -71,7 +71,9 @@ func genSynthSweep(seed uint64, prop, tier, mode string) *Plan {
 	p.Knobs["repeat_R"] = R
 	for i := 0; i < n; i++ {
 		var o *ObjSpec
-		if i%4 == 3 {
+		if i%8 == 7 {
+			o = synthBigCRL(g, idx) // thousands of entries: where an implementation switches to another strategy
+		} else if i%4 == 3 {
 			o = synthCRL(g, idx)
 		} else {
 			o = synthCert(g, idx)
@@ -247,7 +249,7 @@ type envVariant struct {
 }
 
 func envVariants(g *RNG) envVariant {
-	tzs := []string{"TZ", "TZ=UTC", "TZ=America/New_York", "TZ=Asia/Kolkata", "TZ=:/nonexistent", "TZ=Pacific/Kiritimati"}
+	tzs := []string{"TZ", "TZ=UTC", "TZ=America/New_York", "TZ=Asia/Kolkata", "TZ=:/nonexistent", "TZ=Pacific/Kiritimati", "TZ=America/New_York", "TZ=Europe/Berlin", "TZ=Australia/Sydney"}
 	v := envVariant{}
 	tz := pick(g, tzs)
 	v.Env = append(v.Env, tz)
